@@ -10,6 +10,7 @@
 package main
 
 import (
+	"bytes"
 	"context"
 	"encoding/json"
 	"errors"
@@ -217,6 +218,9 @@ type caseIn struct {
 	// ClosedSrcAt > 0: the read error at this position is the value the REAL afpacket.Source was seen
 	// to return once closed, so the property demands that it ends reading
 	ClosedSrcAt int `json:"closed_src_at,omitempty"`
+	// NeverDrain (with Drained false): after the cancellation nobody receives from the error channel
+	// until the receiver goroutine is gone (seen in the goroutine dump; such cases run one at a time)
+	NeverDrain bool `json:"never_drain,omitempty"`
 }
 
 type caseOut struct {
@@ -232,6 +236,10 @@ type caseOut struct {
 	Closed bool  `json:"closed"`
 	Stuck  bool  `json:"stuck"`
 	BadCI  bool  `json:"bad_ci,omitempty"`
+	// NeverDrain: whether the receiver goroutine ended after the cancellation with nobody receiving,
+	// and how long the harness waited for that
+	Gone   bool `json:"gone,omitempty"`
+	GoneMS int  `json:"gone_ms,omitempty"`
 }
 
 type mock struct {
@@ -410,6 +418,21 @@ wait:
 			}
 		}
 	}
+	if in.NeverDrain && !in.Drained {
+		// cancellation must end the receiver even if nobody ever takes another error: wait for its
+		// goroutine to disappear from the goroutine dump before the first receive
+		t0 := time.Now()
+		buf := make([]byte, 1<<20)
+		for time.Since(t0) < time.Duration(neverDrainWaitMS)*time.Millisecond {
+			n := runtime.Stack(buf, true)
+			if !bytes.Contains(buf[:n], []byte(").ReceivePackets.func")) {
+				out.Gone = true
+				break
+			}
+			time.Sleep(5 * time.Millisecond)
+		}
+		out.GoneMS = int(time.Since(t0).Milliseconds())
+	}
 	if !in.Drained {
 		close(startDrain)
 	}
@@ -507,6 +530,8 @@ func (g *gen) randomStep() int {
 		return 128 + g.r.Intn(len(alphabet))
 	}
 }
+
+var neverDrainWaitMS = 3000
 
 type eofReader struct{}
 
@@ -635,6 +660,20 @@ func (g *gen) cases(n int, exhLen int, exhCancelLen int, pairs int, bursts int, 
 		}
 		cs = append(cs, c)
 	}
+	// bursts beyond the buffer with a consumer that takes nothing, not even after the cancellation, until
+	// the receiver is gone: processor errors only, read errors only, mixed
+	for v := 0; v < 3 && runs > 0; v++ {
+		s := make([]int, capacity+12)
+		for j := range s {
+			switch {
+			case v == 0 || (v == 2 && j%3 == 0):
+				s[j] = 64 + g.r.Intn(len(alphabet))
+			default:
+				s[j] = 128 + g.pick(g.byClass["u"])
+			}
+		}
+		cs = append(cs, caseIn{Class: "burst-never-drained", Script: s, Drained: false, CancelReq: -2, AsyncUS: -1, NeverDrain: true})
+	}
 	// long runs of unknown read errors with no frame between them (transient faults interleaved),
 	// a consumer that receives all the time, then frames: cap-1, cap, cap+1, 2.5*cap errors
 	for _, nerr := range []int{capacity - 1, capacity, capacity + 1, capacity * 5 / 2} {
@@ -739,6 +778,7 @@ func main() {
 	runs := flag.Int("runs", 2, "variants of each long run of unknown errors (cap-1, cap, cap+1, 2.5 cap)")
 	source := flag.Bool("source", false, "drive the real afpacket.Source on lo of a private network namespace")
 	srcInner := flag.Bool("realsrc-inner", false, "internal: the real-source scenarios, inside the namespace")
+	flag.IntVar(&neverDrainWaitMS, "goneWait", 3000, "how long a cancelled receiver with a full, unread error channel is given to end, ms")
 	srcWait := flag.Int("srcwait", 2000, "how long a closed source is given to end the receiver, ms")
 	flag.Parse()
 	if *srcInner {
@@ -776,6 +816,9 @@ func main() {
 	var wg sync.WaitGroup
 	sem := make(chan struct{}, *par)
 	for i := range cs {
+		if cs[i].NeverDrain {
+			continue
+		}
 		wg.Add(1)
 		sem <- struct{}{}
 		go func(i int) {
@@ -785,6 +828,12 @@ func main() {
 		}(i)
 	}
 	wg.Wait()
+	// one at a time: the goroutine dump must show this receiver only
+	for i := range cs {
+		if cs[i].NeverDrain {
+			outs[i] = runCase(cs[i])
+		}
+	}
 	for i := range outs {
 		w.Put(outs[i])
 	}
